@@ -29,7 +29,7 @@ from tqdm import trange
 
 from ..core.cache import Cached
 
-from ..core._ext.types import to_cy, ADJ, DEGREE, DFIELD
+from ..core._ext.types import to_cy, ADJ, NODE, DFIELD
 from ._ext.numerics import _embed_time_series_array, _recurrence_plot, \
     _twins_s, _twin_surrogates_s, _test_pearson_correlation, \
     _test_mutual_information
@@ -266,7 +266,7 @@ class Surrogates(Cached):
         #  Initialize the R matrix with ones
         R = np.empty((n_time, n_time), dtype=ADJ)
         #  Initialize array to store the number of neighbors for each sample
-        nR = np.empty(n_time, dtype=DEGREE)
+        nR = np.empty(n_time, dtype=NODE)
 
         _twins_s(N, n_time, dimension, threshold, min_dist,
                  to_cy(self.embedding, DFIELD), R, nR, twins)
